@@ -17,6 +17,21 @@ from mc.worlds import World, corner
 
 WSPEC = corner("real", name="c04", qubits=3, clock=4, min_dur=16)
 
+# qubit naming of the current case: "str" -> q0,q1,q2; "int" -> 0,1,2; "intperm" -> 2,0,1 (the first atom is called 2);
+# "strnum" -> "0","1","2" (what the abstract representation turns integer ids into)
+IDKINDS = {
+    "str": ("q0", "q1", "q2"),
+    "int": (0, 1, 2),
+    "intperm": (2, 0, 1),
+    "strnum": ("0", "1", "2"),
+    "strnumperm": ("2", "0", "1"),
+}
+_IDS = {"kind": "str"}
+
+
+def Q(i):
+    return IDKINDS[_IDS["kind"]][i]
+
 
 # ---- programs with argument-style deviations: St(i) says whether deviation i is active ----------------
 def pg_styles(seq, V, St, w):
@@ -28,9 +43,9 @@ def pg_styles(seq, V, St, w):
     else:
         seq.declare_channel("g", "rydberg_global")
     if St(1):
-        seq.declare_channel("l", "raman_local", "q1")
+        seq.declare_channel("l", "raman_local", Q(1))
     else:
-        seq.declare_channel(name="l", channel_id="raman_local", initial_target="q1")
+        seq.declare_channel(name="l", channel_id="raman_local", initial_target=Q(1))
     p = Pulse.ConstantPulse(V(0, 52, True), V(1, 1.0), 0.0, V(2, 0.5), post_phase_shift=V(3, 0.25))
     if St(2):
         seq.add(p, "g", "min-delay")
@@ -45,11 +60,11 @@ def pg_styles(seq, V, St, w):
     else:
         seq.delay(V(4, 100, True), "l")
     if St(6):
-        seq.target(["q0", "q2"], "l")
+        seq.target([Q(0), Q(2)], "l")
     elif St(7):
-        seq.target(qubits="q0", channel="l")
+        seq.target(qubits=Q(0), channel="l")
     else:
-        seq.target("q0", "l")
+        seq.target(Q(0), "l")
     seq.add(Pulse.ConstantPulse(64, 2.0, V(5, -1.0), 0.0), "l", protocol="wait-for-all")
     if St(8):
         seq.align("g", "l", at_rest=True)
@@ -58,13 +73,13 @@ def pg_styles(seq, V, St, w):
     else:
         seq.align("g", "l")
     if St(10):
-        seq.phase_shift(V(6, 1.0), "q0", basis="ground-rydberg")
+        seq.phase_shift(V(6, 1.0), Q(0), basis="ground-rydberg")
     elif St(11):
-        seq.phase_shift(V(6, 1.0), "q0", "q1")  # default basis
+        seq.phase_shift(V(6, 1.0), Q(0), Q(1))  # default basis
     elif St(12):
         seq.phase_shift(phi=V(6, 1.0), basis="digital")  # keyword phi, all qubits
     else:
-        seq.phase_shift(V(6, 1.0), "q0", "q2", basis="digital")
+        seq.phase_shift(V(6, 1.0), Q(0), Q(2), basis="digital")
     seq.add(Pulse.ConstantPulse(52, 1.0, 0.0, V(7, 0.0)), "g")
     if St(13):
         seq.measure()
@@ -105,7 +120,7 @@ def pg_dmm_slm(seq, V, St, w):
     from pulser.waveforms import ConstantWaveform, RampWaveform
 
     if St(0):
-        seq.config_slm_mask(["q0"])  # before the first channel
+        seq.config_slm_mask([Q(0)])  # before the first channel
     if St(1):
         seq.config_detuning_map(w.detmap("m2"), "dmm_1")  # DMM before the first channel
     seq.declare_channel("g", "rydberg_global")
@@ -113,14 +128,14 @@ def pg_dmm_slm(seq, V, St, w):
         seq.config_detuning_map(detuning_map=w.detmap("m1"), dmm_id="dmm_1")
     seq.add(Pulse.ConstantPulse(V(0, 100, True), V(1, 1.0), 0.0, 0.0), "g")
     if St(3) and not St(0):
-        seq.config_slm_mask(qubits=["q1", "q2"], dmm_id="dmm_0")  # after a pulse
+        seq.config_slm_mask(qubits=[Q(1), Q(2)], dmm_id="dmm_0")  # after a pulse
     if St(1) or St(2):
         if St(4):
             seq.add_dmm_detuning(ConstantWaveform(V(2, 100, True), V(3, -2.0)), "dmm_1")
         else:
             seq.add_dmm_detuning(waveform=RampWaveform(60, V(3, -2.0), 0.0), dmm_name="dmm_1", protocol="min-delay")
     if St(5):
-        seq.declare_channel("r", "rydberg_local", ["q0", "q1"])  # declared late, multi target
+        seq.declare_channel("r", "rydberg_local", [Q(0), Q(1)])  # declared late, multi target
         seq.add(Pulse.ConstantPulse(52, 1.0, 0.0, 0.0), "r", "no-delay")
     if St(6):
         seq.measure("ground-rydberg")
@@ -134,11 +149,11 @@ def pg_xy(seq, V, St, w):
     elif St(1):
         seq.set_magnetic_field(bz=10.0)
     if St(2):
-        seq.config_slm_mask(["q0", "q2"])
+        seq.config_slm_mask([Q(0), Q(2)])
     seq.declare_channel("m", "mw_global")
     seq.add(Pulse.ConstantPulse(V(0, 100, True), V(1, 1.0), V(2, 0.0), V(3, 0.0)), "m")
     if St(3):
-        seq.config_slm_mask(["q1"]) if not St(2) else None
+        seq.config_slm_mask([Q(1)]) if not St(2) else None
     seq.delay(60, "m")
     seq.add(Pulse.ConstantPulse(40, 2.0, 0.0, 1.0, post_phase_shift=V(4, -0.5)), "m")
     if St(4):
@@ -183,8 +198,8 @@ def make_register(kind, w):
     from pulser.register.mappable_reg import MappableRegister
     from pulser.register.register_layout import RegisterLayout
 
-    c2 = {"q0": (0.0, 0.0), "q1": (8.0, 0.0), "q2": (3.0, 9.0)}
-    c3 = {"q0": (0.0, 0.0, 0.0), "q1": (8.0, 0.0, 1.0), "q2": (3.0, 9.0, -4.0)}
+    c2 = {Q(0): (0.0, 0.0), Q(1): (8.0, 0.0), Q(2): (3.0, 9.0)}
+    c3 = {Q(0): (0.0, 0.0, 0.0), Q(1): (8.0, 0.0, 1.0), Q(2): (3.0, 9.0, -4.0)}
     if kind == "2d":
         return Register(c2)
     if kind == "3d":
@@ -193,7 +208,7 @@ def make_register(kind, w):
         L = RegisterLayout([(3.0, 9.0), (0.0, 0.0), (8.0, 0.0), (20.0, 20.0), (-8.0, 4.0), (12.0, -7.0)], slug="L2")
         ids = L.get_traps_from_coordinates(*c2.values())
         if kind == "mappable":
-            return MappableRegister(L, "q0", "q1", "q2"), dict(zip(c2, ids))
+            return MappableRegister(L, Q(0), Q(1), Q(2)), dict(zip(c2, ids))
         return L.define_register(*ids, qubit_ids=list(c2))
     if kind == "3d-layout":
         L = RegisterLayout([(3.0, 9.0, -4.0), (0.0, 0.0, 0.0), (8.0, 0.0, 1.0), (0.0, 0.0, 9.0), (5.0, 5.0, 5.0), (-5.0, 5.0, 5.0)])
@@ -226,10 +241,11 @@ class Styles:
         return i in self.active
 
 
-def build_program(name, active, chosen, regkind, devkind, mode, assign=None):
+def build_program(name, active, chosen, regkind, devkind, mode, assign=None, idkind="str"):
     """Returns (seq, extra) where extra has the Vals object and the qubit mapping for mappable registers."""
     from pulser import Sequence
 
+    _IDS["kind"] = idkind
     w = World(WSPEC)
     fn, _ = PROGRAMS[name]
     reg = make_register(regkind, w)
@@ -289,6 +305,18 @@ def cases(tier):
                 out.append((name, act, chosen, "2d", "virtual"))
                 out.append((name, act, chosen, "mappable", "virtual"))
         out.append((name, (), ((0, "round"),), "2d", "virtual"))
+        # integer qubit ids (in and out of register order): the abstract representation stores ids as strings and
+        # addresses qubits by index, so the decoded sequence must equal the same program written with str(id)
+        for idk in ("int", "intperm"):
+            for act in [()] + [(i,) for i in range(nst)]:
+                out.append((name, act, (), "2d", "virtual", idk))
+            out.append((name, (), (), "mappable", "virtual", idk))
+            out.append((name, (), (), "2d-layout", "MockDevice", idk))
+            pos = plain_positions(name, ())
+            if 0 in pos:
+                ch = ((0, c08.pick(kinds, 0, pos[0][0], pos[0][1], 0)),)
+                out.append((name, (), ch, "2d", "virtual", idk))
+                out.append((name, (), ch, "mappable", "virtual", idk))
     # de-duplicate
     seen = set()
     uniq = []
@@ -332,7 +360,8 @@ def norm(s):
 def run_case(case):
     from pulser import Sequence
 
-    name, active, chosen_t, regkind, devkind = case
+    name, active, chosen_t, regkind, devkind = case[:5]
+    idkind = case[5] if len(case) > 5 else "str"
     chosen = dict(chosen_t)
     tag = f"{name}:{regkind}:{devkind}:{'param' if chosen else 'plain'}"
     out = []
@@ -341,9 +370,15 @@ def run_case(case):
         w = World(WSPEC)
         pos = None
         try:
-            seq, V, mapping = build_program(name, active, chosen, regkind, devkind, "template" if chosen else "plain")
+            seq, V, mapping = build_program(name, active, chosen, regkind, devkind, "template" if chosen else "plain", idkind=idkind)
+            ref, ref_mapping = seq, mapping
+            if idkind in ("int", "intperm"):
+                # the same program with every id written as str(id): what the abstract representation can express
+                ref, _, ref_mapping = build_program(name, active, chosen, regkind, devkind, "template" if chosen else "plain",
+                                                    idkind={"int": "strnum", "intperm": "strnumperm"}[idkind])
         except Exception as e:
             return [("@program-not-constructible", f"{type(e).__name__}")]
+        idt = "" if idkind == "str" else f":ids={idkind}"
         if V.skip:
             return [("@expression-not-applicable", "")]
         before = snapshot.snap(seq, with_calls=True).key(with_calls=True)
@@ -393,6 +428,7 @@ def run_case(case):
             except Exception as e:
                 out.append((f"C04:decode-raises:{codec}:{name}:{type(e).__name__}", f"{case}: {e}"[:250]))
                 continue
+            cmp, cmp_mapping = (ref, ref_mapping) if codec == "abstract" else (seq, mapping)
             # fixpoint
             try:
                 doc2 = dec.to_abstract_repr() if codec == "abstract" else dec._serialize()
@@ -404,26 +440,26 @@ def run_case(case):
             if dec.device != seq.device:
                 out.append((f"C04:device-differs:{codec}:{devkind}", f"{case}"))
             try:
-                r1, r2 = seq.get_register(include_mappable=True), dec.get_register(include_mappable=True)
+                r1, r2 = cmp.get_register(include_mappable=True), dec.get_register(include_mappable=True)
                 same_reg = (list(r1.qubit_ids) == list(r2.qubit_ids)) and (r1.layout == r2.layout)
                 if mapping is None:
                     same_reg = same_reg and r1 == r2
                 if not same_reg:
-                    out.append((f"C04:register-differs:{codec}:{regkind}", f"{case}"))
+                    out.append((f"C04:register-differs:{codec}:{regkind}{idt}", f"{case}"))
             except Exception as e:
                 out.append((f"C04:register-compare-raises:{codec}:{regkind}", f"{e}"[:200]))
             # behaviour
             if not chosen and mapping is None:
-                s1, s2 = snapshot.snap(seq, False), snapshot.snap(dec, False)
+                s1, s2 = snapshot.snap(cmp, False), snapshot.snap(dec, False)
                 if norm(s1) != norm(s2):
-                    out.append((f"C04:decoded-sequence-differs:{codec}:{name}:{_diff(s1, s2)}", f"{case}"))
+                    out.append((f"C04:decoded-sequence-differs:{codec}:{name}:{_diff(s1, s2)}{idt}", f"{case}"))
             else:
                 for an in (("A", "B") if chosen else ("A",)):
                     kw = dict(vals.get(an) or {})
                     if mapping is not None:
-                        kw["qubits"] = mapping
+                        kw["qubits"] = cmp_mapping
                     try:
-                        b1 = seq.build(**kw)
+                        b1 = cmp.build(**kw)
                     except Exception:
                         continue  # this assignment is not accepted by the original either
                     try:
@@ -433,7 +469,7 @@ def run_case(case):
                         continue
                     s1, s2 = snapshot.snap(b1, False), snapshot.snap(b2, False)
                     if norm(s1) != norm(s2):
-                        out.append((f"C04:decoded-build-differs:{codec}:{name}:{_diff(s1, s2)}", f"{case} assignment {an}"))
+                        out.append((f"C04:decoded-build-differs:{codec}:{name}:{_diff(s1, s2)}{idt}", f"{case} assignment {an}"))
                 if dec.is_parametrized() != seq.is_parametrized() or sorted(dec.declared_variables) != sorted(seq.declared_variables):
                     out.append((f"C04:decoded-variables-differ:{codec}:{name}", f"{case}"))
             if dec.is_measured() != seq.is_measured() or (seq.is_measured() and dec.get_measurement_basis() != seq.get_measurement_basis()):
@@ -451,7 +487,8 @@ def run(tier, seed):
             if fp.startswith("@"):
                 classes[fp] = classes.get(fp, 0) + 1
             else:
-                res.add(Violation(fp, d, {"engine": "progx", "case": [c[0], list(c[1]), [list(x) for x in c[2]], c[3], c[4]]}, size=len(c[1]) + len(c[2])))
+                res.add(Violation(fp, d, {"engine": "progx", "case": [c[0], list(c[1]), [list(x) for x in c[2]], c[3], c[4]] + list(c[5:])},
+                                  size=len(c[1]) + len(c[2])))
     res.coverage = dict(
         evaluations=len(cs), distinct_nontrivial=classes.get("@roundtrip", 0), exhaustive=True, outcome_classes=classes,
         programs=len(cs), disagreements_checked=len(res.violations),
@@ -469,5 +506,5 @@ def run(tier, seed):
 
 def replay(payload):
     c = payload["case"]
-    case = (c[0], tuple(c[1]), tuple((int(p), k) for p, k in c[2]), c[3], c[4])
+    case = (c[0], tuple(c[1]), tuple((int(p), k) for p, k in c[2]), c[3], c[4]) + tuple(c[5:])
     return [Violation(fp, d, payload) for fp, d in run_case(case) if not fp.startswith("@")]
